@@ -589,16 +589,19 @@ def _is_same_type(ty: Type | SymbolNode | None, expected: TypeLike) -> bool:
     if isinstance(ty, AnyType) and expected is Any:
         return True
 
-    if isinstance(ty, Instance | TypeInfo):
-        str_type = ty.type.fullname if isinstance(ty, Instance) else ty.fullname
-
-        if str_type in SIMPLE_TYPES and SIMPLE_TYPES[str_type] is expected:
-            return True
-
-        if isinstance(expected, str) and str_type == expected:
-            return True
+    if isinstance(ty, Instance):
+        return _is_same_class(ty.type, expected)
 
     return False
+
+
+def _is_same_class(info: TypeInfo, expected: TypeLike) -> bool:
+    str_type = info.fullname
+
+    if str_type in SIMPLE_TYPES and SIMPLE_TYPES[str_type] is expected:
+        return True
+
+    return isinstance(expected, str) and str_type == expected
 
 
 def _get_builtin_mypy_type(name: str) -> Instance | None:
@@ -775,16 +778,13 @@ def is_sized_type(ty: Type | SymbolNode | None) -> bool:
 
 def is_subclass(ty: Any, *expected: TypeLike) -> bool:  # type: ignore[misc]
     if type_info := extract_typeinfo(ty):
-        return any(is_same_type(x, *expected) for x in type_info.mro)
+        return any(_is_same_class(x, t) for x in type_info.mro for t in expected)
 
     return False  # pragma: no cover
 
 
 def extract_typeinfo(ty: Type | SymbolNode | None) -> TypeInfo | None:
     match ty:
-        case TypeInfo():
-            return ty  # pragma: no cover
-
         case Instance():
             return ty.type
 
